@@ -144,7 +144,7 @@ func ob_GetDefault(th *Thread, this Value, args []Value) Value {
 var _ = method(ob_HasQ, "(value) :boolean")
 
 func ob_HasQ(this Value, val Value) Value {
-	return SuBool(ToContainer(this).ToObject().Find(val) != False)
+	return SuBool(ToContainer(this).ToObject().Has(val))
 }
 
 var _ = method(ob_Iter, "() :object")
